@@ -109,5 +109,5 @@ Accepted ==
 \* evaluated in every state: at the end of a complete trace the model must have terminated
 EndState == (l = Len(Rec) + 1 /\ ~Hdr.stalled) => Terminated
 \* a stalled run: is the model stuck as well (no step enabled)?  printed, decided by the orchestrator
-StuckReport == (l = Len(Rec) + 1 /\ Hdr.stalled) => PrintT(<<"STUCK", ~ENABLED Next>>)
+StuckReport == (l = Len(Rec) + 1 /\ Hdr.stalled) => PrintT(<<"STUCK", ~Terminated /\ ~ENABLED Next>>)
 =============================================================================
